@@ -65,6 +65,7 @@ func (x *Exec) runPar(fns []Value, maxPre int) {
 	}
 	s := &scheduler{x: x, toSched: make(chan schedMsg), kill: make(chan struct{}), maxPre: maxPre}
 	x.sched = s
+	x.usedNondet = true
 	defer func() { x.sched = nil; x.thread = 0 }()
 	for i, f := range fns {
 		t := &thr{id: i, resume: make(chan struct{})}
